@@ -199,23 +199,7 @@ def probeParams (defaults syms : List String) (aliases : List (String × String)
 
 /-! ## lateral shifts and the polar-decomposition fit -/
 
-/-- 2×2 matrix `[[a, b], [c, d]]` -/
-structure M2 (R : Type) where
-  a : R
-  b : R
-  c : R
-  d : R
-
-namespace M2
-def mul (x y : M2 R) : M2 R :=
-  ⟨x.a * y.a + x.b * y.c, x.a * y.b + x.b * y.d, x.c * y.a + x.d * y.c, x.c * y.b + x.d * y.d⟩
-def transpose (x : M2 R) : M2 R := ⟨x.a, x.c, x.b, x.d⟩
-def neg (x : M2 R) : M2 R := ⟨-x.a, -x.b, -x.c, -x.d⟩
-def det (x : M2 R) : R := x.a * x.d - x.b * x.c
-def inv (x : M2 R) : M2 R :=
-  let dt := det x
-  ⟨x.d / dt, -x.b / dt, -x.c / dt, x.a / dt⟩
-end M2
+-- the 2×2 matrix type `M2` and its operations live in Model/AberrationBase.lean (the generated file uses them too)
 
 /-- `_passively_rotate_grid` -/
 def rotateGrid (kx ky theta : R) : R × R :=
@@ -282,6 +266,11 @@ def fitExtract (u p : M2 R) : R × R × R × R :=
 
 def fit (basis shifts : List (R × R)) : R × R × R × R :=
   let up := polar2 (lstsq2 basis shifts)
+  fitExtract up.1 up.2
+
+/-- the fit with the TRANSLATED `_torch_polar` (Generated/Aberration.lean) on top of an abstract svd routine -/
+def fitTranslated (svd : M2 R → M2 R × (R × R) × M2 R) (basis shifts : List (R × R)) : R × R × R × R :=
+  let up := Generated.Aberration.torch_polar svd (lstsq2 basis shifts)
   fitExtract up.1 up.2
 
 /-- the rotation matrix `R_{-θ}` and the aberration matrix `A` of (C10, C12, φ12):
